@@ -507,7 +507,8 @@ def c02(pid, tier, seed, t0):
 
 
 def c03(pid, tier, seed, t0):
-    mc = [mc_register("C03", "SmallDecls", ["a", "b"], ["TypeOK", "Frame", "ReadBack", "GetArith"], [])]
+    mc = [mc_register("C03", "SmallDecls", ["a", "b"], ["TypeOK", "Frame", "ReadBack", "GetArith"], []),
+          mc_register("C03n", "NineDecls", ["a"], ["TypeOK", "Frame", "ReadBack", "UpperBitsZero", "LastWriteWins"], [], idle_ok=("Default",))]
     _, arr = vlib.corpus("arr")
     _, nc = vlib.corpus("nc")
     rnd = sub(gen_random(tier, seed, "overlap", "c03", 120, 1200, custom=True), lambda d, f: bool(f["array"]))
@@ -527,7 +528,8 @@ def c03(pid, tier, seed, t0):
 
 
 def c04(pid, tier, seed, t0):
-    mc = [mc_register("C04", "SmallDecls", ["a", "b"], ["TypeOK", "Frame", "ReadBack", "WriteBackIdentity"], [])]
+    mc = [mc_register("C04", "SmallDecls", ["a", "b"], ["TypeOK", "Frame", "ReadBack", "WriteBackIdentity"], []),
+          mc_register("C04n", "NineDecls", ["a"], ["TypeOK", "Frame", "ReadBack", "WriteBackIdentity", "DisjointCommute"], [], idle_ok=("Default",))]
     _, nc = vlib.corpus("nc")
     rnd = sub(gen_random(tier, seed, "overlap", "c04", 150, 2000, custom=True), lambda d, f: f["list"])
     decls = copyd(nc) + copyd(rnd)
@@ -543,7 +545,8 @@ def c04(pid, tier, seed, t0):
 
 
 def c05(pid, tier, seed, t0):
-    mc = [mc_register("C05", "ByteDecls", ["a"], ["TypeOK", "Frame", "ReadBack", "UpperBitsZero"], [], idle_ok=("NxOOB", "Default"))]
+    mc = [mc_register("C05", "ByteDecls", ["a"], ["TypeOK", "Frame", "ReadBack", "UpperBitsZero"], [], idle_ok=("NxOOB", "Default")),
+          mc_register("C05n", "NineDecls", ["a"], ["TypeOK", "Frame", "ReadBack", "UpperBitsZero"], [], idle_ok=("Default",))]
     _, star = vlib.corpus("star")
     _, arr = vlib.corpus("arr")
     _, nc = vlib.corpus("nc")
